@@ -238,11 +238,10 @@ theorem toOption'_some {r : Rule} {τ : OTy} (h : Except.toOption' r = some τ) 
 theorem orFail_ok (τ : OTy) (loc : Loc) (st : CState) : orFail (.ok τ) loc st = (τ, st) := rfl
 
 theorem frag_unary (cfg : CheckCfg) (cs : List OTy) (c : SCfg) (m : Meta) (op : String) (x : Node)
-    (hop : fragUnary op = true) (hsc : scalarTyped cfg cs (.unary m op x) = true) (ih : FragSpec E P cfg cs c x) :
+    (hop : fragUnary op = true) (hτs : scalarOK (synth cfg cs (.unary m op x)) = true)
+    (hxs : scalarOK (synth cfg cs x) = true) (ih : FragSpec E P cfg cs c x) :
     FragSpec E P cfg cs c (.unary m op x) := by
   intro τ hs _ st hst
-  simp only [scalarTyped, Bool.and_eq_true] at hsc
-  obtain ⟨hτs, hxs⟩ := hsc
   rw [hs] at hτs
   simp only [synth] at hs
   cases hsx : synth cfg cs x with
@@ -253,8 +252,7 @@ theorem frag_unary (cfg : CheckCfg) (cs : List OTy) (c : SCfg) (m : Meta) (op : 
     have hrule := toOption'_some hs
     -- the type of the operand is scalar
     have hts0 : ScalarT t := by
-      have : scalarOK (synth cfg cs x) = true := by
-        cases x <;> simp only [scalarTyped, Bool.and_eq_true] at hxs <;> first | exact hxs | exact hxs.1 | exact hxs.1.1 | exact hxs.1.1.1
+      have : scalarOK (synth cfg cs x) = true := hxs
       rw [hsx] at this; exact this
     obtain ⟨e1, e2, ev⟩ := ih t hsx hts0 st hst
     rcases hx : visit cfg x st with ⟨x', t', st1⟩
@@ -645,11 +643,9 @@ theorem scalarTyped_self (cfg : CheckCfg) (cs : List OTy) (n : Node) (h : scalar
     first | exact h | exact h.1 | exact h.1.1 | exact h.1.1.1
 
 theorem frag_binary (hE : E .divzero) (cfg : CheckCfg) (cs : List OTy) (c : SCfg) (m : Meta) (op : String) (l r : Node)
-    (hop : fragBinary op = true) (hsc : scalarTyped cfg cs (.binary m op l r) = true)
+    (hop : fragBinary op = true) (hlsc : scalarOK (synth cfg cs l) = true) (hrsc : scalarOK (synth cfg cs r) = true)
     (ihl : FragSpec E P cfg cs c l) (ihr : FragSpec E P cfg cs c r) : FragSpec E P cfg cs c (.binary m op l r) := by
   intro τ hs _ st hst
-  simp only [scalarTyped, Bool.and_eq_true] at hsc
-  obtain ⟨⟨_, hlsc⟩, hrsc⟩ := hsc
   simp only [synth] at hs
   cases hsl : synth cfg cs l with
   | none => rw [hsl] at hs; cases hs
@@ -661,9 +657,9 @@ theorem frag_binary (hE : E .divzero) (cfg : CheckCfg) (cs : List OTy) (c : SCfg
       simp only [] at hs
       have hrule := toOption'_some hs
       have hls0 : ScalarT lt := by
-        have := scalarTyped_self cfg cs l hlsc; rw [hsl] at this; exact this
+        have := hlsc; rw [hsl] at this; exact this
       have hrs0 : ScalarT rt := by
-        have := scalarTyped_self cfg cs r hrsc; rw [hsr] at this; exact this
+        have := hrsc; rw [hsr] at this; exact this
       obtain ⟨e1, k1, ev1⟩ := ihl lt hsl hls0 st hst
       have hst1 := visit_colls cfg l st
       rcases hl : visit cfg l st with ⟨l', lt', st1⟩
@@ -701,12 +697,11 @@ theorem assignable_scalar_kind {x y : Ty} (hx : ScalarT (some x)) (hy : ScalarT 
     simp [RKind.isScalar] at hy'
 
 theorem frag_cond (cfg : CheckCfg) (cs : List OTy) (c : SCfg) (m : Meta) (cn a b : Node)
-    (hsc : scalarTyped cfg cs (.cond m cn a b) = true)
+    (hτs : scalarOK (synth cfg cs (.cond m cn a b)) = true) (hcsc : scalarOK (synth cfg cs cn) = true)
+    (hasc : scalarOK (synth cfg cs a) = true) (hbsc : scalarOK (synth cfg cs b) = true)
     (ihc : FragSpec E P cfg cs c cn) (iha : FragSpec E P cfg cs c a) (ihb : FragSpec E P cfg cs c b) :
     FragSpec E P cfg cs c (.cond m cn a b) := by
   intro τ hs _ st hst
-  simp only [scalarTyped, Bool.and_eq_true] at hsc
-  obtain ⟨⟨⟨hτs, hcsc⟩, hasc⟩, hbsc⟩ := hsc
   rw [hs] at hτs
   simp only [synth] at hs
   cases hsc' : synth cfg cs cn with
@@ -725,11 +720,11 @@ theorem frag_cond (cfg : CheckCfg) (cs : List OTy) (c : SCfg) (m : Meta) (cn a b
           rw [hsa, hsb] at hs
           simp only [Option.some.injEq] at hs
           have hcs0 : ScalarT ct := by
-            have := scalarTyped_self cfg cs cn hcsc; rw [hsc'] at this; exact this
+            have := hcsc; rw [hsc'] at this; exact this
           have h1s0 : ScalarT t1 := by
-            have := scalarTyped_self cfg cs a hasc; rw [hsa] at this; exact this
+            have := hasc; rw [hsa] at this; exact this
           have h2s0 : ScalarT t2 := by
-            have := scalarTyped_self cfg cs b hbsc; rw [hsb] at this; exact this
+            have := hbsc; rw [hsb] at this; exact this
           obtain ⟨e0, _, ev0⟩ := ihc ct hsc' hcs0 st hst
           have hst1 := visit_colls cfg cn st
           rcases hcv : visit cfg cn st with ⟨cn', ct', st1⟩
@@ -845,14 +840,14 @@ theorem frag_sound (hE : E .divzero) (cfg : CheckCfg) (cs : List OTy) (c : SCfg)
     simp only [inFrag, Bool.and_eq_true] at hf
     have hx : scalarTyped cfg cs x = true := by
       simp only [scalarTyped, Bool.and_eq_true] at hsc; exact hsc.2
-    exact frag_unary cfg cs c m op x hf.1 hsc (frag_sound hE cfg cs c henv x hf.2 hx)
+    exact frag_unary cfg cs c m op x hf.1 (scalarTyped_self _ _ _ hsc) (scalarTyped_self _ _ _ hx) (frag_sound hE cfg cs c henv x hf.2 hx)
   | .binary m op l r, hf, hsc => by
     simp only [inFrag, Bool.and_eq_true] at hf
     have hl : scalarTyped cfg cs l = true := by
       simp only [scalarTyped, Bool.and_eq_true] at hsc; exact hsc.1.2
     have hr : scalarTyped cfg cs r = true := by
       simp only [scalarTyped, Bool.and_eq_true] at hsc; exact hsc.2
-    exact frag_binary hE cfg cs c m op l r hf.1.1 hsc (frag_sound hE cfg cs c henv l hf.1.2 hl)
+    exact frag_binary hE cfg cs c m op l r hf.1.1 (scalarTyped_self _ _ _ hl) (scalarTyped_self _ _ _ hr) (frag_sound hE cfg cs c henv l hf.1.2 hl)
       (frag_sound hE cfg cs c henv r hf.2 hr)
   | .cond m cn a b, hf, hsc => by
     simp only [inFrag, Bool.and_eq_true] at hf
@@ -862,7 +857,8 @@ theorem frag_sound (hE : E .divzero) (cfg : CheckCfg) (cs : List OTy) (c : SCfg)
       simp only [scalarTyped, Bool.and_eq_true] at hsc; exact hsc.1.2
     have h3 : scalarTyped cfg cs b = true := by
       simp only [scalarTyped, Bool.and_eq_true] at hsc; exact hsc.2
-    exact frag_cond cfg cs c m cn a b hsc (frag_sound hE cfg cs c henv cn hf.1.1 h1)
+    exact frag_cond cfg cs c m cn a b (scalarTyped_self _ _ _ hsc) (scalarTyped_self _ _ _ h1) (scalarTyped_self _ _ _ h2)
+      (scalarTyped_self _ _ _ h3) (frag_sound hE cfg cs c henv cn hf.1.1 h1)
       (frag_sound hE cfg cs c henv a hf.1.2 h2) (frag_sound hE cfg cs c henv b hf.2 h3)
   | .nil _, hf, _ | .const _ _, hf, _ | .matches _ _ _ _, hf, _ | .prop _ _ _ _, hf, _
   | .index _ _ _, hf, _ | .slice _ _ _ _, hf, _ | .method _ _ _ _ _, hf, _ | .func _ _ _ _, hf, _
